@@ -263,9 +263,10 @@ fn lex_str_literal(lx: &mut Lexer<'_, Token>) -> Result<String, LexErr> {
         match mid {
             "\\" => {
                 // the next character is part of the escape:
-                let esc = right.as_bytes()
-                    .first()
-                    .unwrap_or_else(|| unreachable!("expected character after escape")); // there always has to be one, cause last character is not \
+                let Some(esc) = right.as_bytes().first() else {
+                    // The line ends right after the backslash, so the literal cannot be closed on this line.
+                    break;
+                };
                 match esc {
                     b'n'  => buf.push('\n'),
                     b'r'  => buf.push('\r'),
